@@ -553,8 +553,28 @@ func execC14(c *Ctx) {
 			return
 		}
 		// a key installed only after removal: install removedKey on R, remove it again, replay
+		// In half of the runs a further key is installed after it, so the removed key sits in the
+		// middle of the ring; that later key must survive the removal (positive control below).
+		lateKey := simKey(16, 0x71)
+		useLate := c.Seed%2 == 0
 		_ = l.R.conf.Keyring.AddKey(removedKey)
+		if useLate {
+			_ = l.R.conf.Keyring.AddKey(lateKey)
+		}
 		_ = l.R.conf.Keyring.RemoveKey(removedKey)
+		if useLate {
+			rc := inject(withLabel(p.Cfg.Label, seal(lateKey, p.Cfg.Label)))
+			if rc.key() != orig.key() {
+				c.Violate("installed-secondary-key-rejected", "", "rcv", "genuine %s sealed under a key installed after the removed one (ring: primary, %d extras, removed, late; then RemoveKey(removed)) was not treated like the original:\n  original: %s\n  got: %s", g.Kind, nExtra, orig.key(), rc.key())
+				return
+			}
+			// same ring again for the replay under the removed key
+			l.freshR()
+			_ = l.R.conf.Keyring.AddKey(removedKey)
+			_ = l.R.conf.Keyring.AddKey(lateKey)
+			_ = l.R.conf.Keyring.RemoveKey(removedKey)
+			c.Reach("removed_key_in_mid_ring")
+		}
 		if !check("sealed under a key that was installed and removed again", "", withLabel(p.Cfg.Label, seal(removedKey, p.Cfg.Label))) {
 			return
 		}
